@@ -9,19 +9,24 @@
    Outcome = what run_script / run_script_file decide; Status = the CLI's exit status, whether an
    "Error:" line is printed, and whether the script ran at all. *)
 EXTENDS Naturals, Sequences, TLC, FiniteSets
-Kinds == {"echo", "crash", "exit3", "exit0", "badquote", "unknowncmd", "ECHO"}
+\* statements without a command (legal: `name =` unsets the variable, `:label` only defines the label; "none" is a
+\* line that has only the first statement's label / output variable, or is blank): they run and continue, and
+\* lint still looks at their label and output variable ("OUT", "LBL" carry an upper-case letter)
+NoCmdKinds == {"none", "out", "OUT", "lbl", "LBL"}
+Kinds == {"echo", "crash", "exit3", "exit0", "badquote", "unknowncmd", "ECHO"} \cup NoCmdKinds
+FirstKinds == Kinds \ {"out", "OUT", "lbl", "LBL"}    \* the first statement takes its label / output from s.label / s.out
 Terminates(k) == k \in {"crash", "exit3", "exit0", "unknowncmd", "ECHO"}
 RECURSIVE RunFrom(_,_)
 RunFrom(st, i) == IF i > Len(st) THEN "ok"
-                  ELSE CASE st[i] = "echo" -> RunFrom(st, i+1) [] st[i] \in {"crash", "unknowncmd", "ECHO"} -> "crash"
+                  ELSE CASE st[i] \in {"echo"} \cup NoCmdKinds -> RunFrom(st, i+1) [] st[i] \in {"crash", "unknowncmd", "ECHO"} -> "crash"
                          [] st[i] = "exit3" -> "exit-nonzero" [] st[i] = "exit0" -> "exit-zero"
 Outcome(s) == IF s.missing THEN "missing-file"
               ELSE IF \E i \in 1..Len(s.st) : s.st[i] = "badquote" THEN "parse-error" ELSE RunFrom(s.st, 1)
 \* number of echo lines printed before the run ends
 RECURSIVE Echoes(_,_)
-Echoes(st, i) == IF i > Len(st) \/ Terminates(st[i]) THEN 0 ELSE 1 + Echoes(st, i+1)
+Echoes(st, i) == IF i > Len(st) \/ Terminates(st[i]) THEN 0 ELSE (IF st[i] = "echo" THEN 1 ELSE 0) + Echoes(st, i+1)
 Printed(s) == IF Outcome(s) \in {"parse-error", "missing-file"} THEN 0 ELSE Echoes(s.st, 1)
-AllLower(s) == s.label # "Upper" /\ s.out # "Upper" /\ \A i \in 1..Len(s.st) : s.st[i] # "ECHO"
+AllLower(s) == s.label # "Upper" /\ s.out # "Upper" /\ \A i \in 1..Len(s.st) : s.st[i] \notin {"ECHO", "OUT", "LBL"}
 RunForms == {"file", "-e", "--eval"}
 LintForms == {"-l", "--lint"}
 InfoForms == {"--version", "--help", "-h"}
